@@ -10,18 +10,21 @@
 //	reset <maxPool>                     new frps (Transport.MaxPoolCount)                    -
 //	login <sid> <pool>                  Login{PoolCount}, NewProxy tcp p-<sid>               ok:<ReqWorkConn seen> | err
 //	offer <sid> <wid> <mux> <auth>      NewWorkConn on connector <mux>                       P | R | X | L | O | S:<uid>:<flags>
-//	user <sid> <uid>                    dial the proxy's port                                B:<wid>:<flags> | W | C | refused
+//	user <sid> <uid>                    dial the proxy's port                                B:<wid>:<flags> | W | C:<consumed> | refused
 //	expire <uid>                        wait for a waiting user to be closed                 C:intime | C:early | C:late | open
 //	kill <wid>                          the client closes one held work connection           - | uclosed | uopen
 //	killmux <mux>                       the client closes a whole yamux session              -
 //	close <uid>                         the user closes                                      - | wclosed | wopen
 //	data <uid>                          echo through an established bridge                   ok | bad
 //	reqs <sid>                          ReqWorkConn messages seen so far                     <n>
+//	newproxy <sid> <p>                  NewProxy tcp (p0: the proxy the users dial, p<k>: more) ok:<ReqWorkConn seen> | err:<n>
+//	closeproxy <sid> <p>                CloseProxy, then Ping/Pong                           ok:<ReqWorkConn seen>
 //	end <sid>                           the client closes the control connection             w=<closed>/<open>;u=<closed>/<open>
 //	gate <sid> <point>                  same, but teardown parks at the gate                 parked | noparked
 //	release <sid>                       un-park, wait for the end                            as end
 //	child <enc>                         inner ops (`;` separated, `,` for blanks) in a sacrificial process
 //	mxreset | mxlisten <l> <dom> | mxconn <c> <dom> | mxaccept <l> | mxclose <l>             vhost HTTPS muxer
+//	vl… | vp… | gp…                     visitor-listener and group-listener accept paths: eng_pool_vl.go
 //
 // flags: n/N StartWorkConn.ProxyName right/wrong, s/S source address, t/T destination address, d/D payload echo.
 package main
@@ -94,6 +97,7 @@ type poolSess struct {
 	reqs       int
 	eof        bool
 	resp       chan *msg.NewProxyResp
+	pong       chan struct{}
 	proxy      string
 	port       int
 	ended      bool
@@ -221,6 +225,26 @@ func (st *poolState) connector(name string) (client.Connector, error) {
 	return c, nil
 }
 
+// muxSync makes everything the client did on the yamux session <mux> visible to frps: frames of one
+// session are processed in order, so once frps has answered a fresh stream (a NewWorkConn for an
+// unknown run id: refused and closed) it has processed the FIN of every stream closed before.
+func (st *poolState) muxSync(mux string) {
+	conn, ok := st.connectors[mux]
+	if !ok {
+		return
+	}
+	c, err := conn.Connect()
+	if err != nil {
+		return
+	}
+	defer c.Close()
+	if err := msg.WriteMsg(c, &msg.NewWorkConn{RunID: "verif-sync"}); err != nil {
+		return
+	}
+	_ = c.SetReadDeadline(time.Now().Add(poolWait))
+	_, _ = io.Copy(io.Discard, c)
+}
+
 // len(workConnCh) of the session, -1 if it is not in the table.  While a worker is parked at
 // `worker.drained` it holds ctl.mu, which VerifAuthSessions needs: then only presence is reported.
 func (st *poolState) poolLen(runID string) int {
@@ -269,6 +293,11 @@ func (s *poolSess) reader() {
 		case *msg.NewProxyResp:
 			select {
 			case s.resp <- v:
+			default:
+			}
+		case *msg.Pong:
+			select {
+			case s.pong <- struct{}{}:
 			default:
 			}
 		}
@@ -496,6 +525,9 @@ func poolExec(tok []string) string {
 	case "mxreset", "mxlisten", "mxconn", "mxaccept", "mxclose":
 		return poolMxExec(st, tok)
 	}
+	if strings.HasPrefix(tok[0], "vl") || strings.HasPrefix(tok[0], "vp") || strings.HasPrefix(tok[0], "gp") {
+		return poolVlExec(tok)
+	}
 	if st.svr == nil {
 		st.startSvr(5)
 	}
@@ -533,7 +565,7 @@ func poolExec(tok []string) string {
 		if err != nil {
 			return "err"
 		}
-		s := &poolSess{sid: sid, runID: resp.RunID, c: c, rw: rw, resp: make(chan *msg.NewProxyResp, 4),
+		s := &poolSess{sid: sid, runID: resp.RunID, c: c, rw: rw, resp: make(chan *msg.NewProxyResp, 4), pong: make(chan struct{}, 4),
 			proxy: "p-" + sid, parked: make(chan struct{}), isParked: make(chan struct{})}
 		st.gmu.Lock()
 		st.sess[sid] = s
@@ -649,6 +681,7 @@ func poolExec(tok []string) string {
 			}
 		}
 		reqs0 := s.reqCount()
+		pool0 := st.poolLen(s.runID)
 		c, err := net.DialTimeout("tcp", net.JoinHostPort("127.0.0.1", strconv.Itoa(s.port)), poolWait)
 		if err != nil {
 			return "refused"
@@ -658,7 +691,10 @@ func poolExec(tok []string) string {
 		go u.reader()
 		for {
 			for id, w := range st.wcs {
-				if w.sid != sid || started[id] {
+				// a work connection the client has closed itself cannot carry a bridge, whether or not its
+				// reader still got to see the StartWorkConn frps wrote into the half-closed stream: what
+				// counts for such a hand-out is that frps closes the user connection (reported as C:<n>)
+				if w.sid != sid || started[id] || w.localClosed {
 					continue
 				}
 				if sw, _, _ := w.snap(); sw != nil && sw.Error == "" {
@@ -667,7 +703,13 @@ func poolExec(tok []string) string {
 				}
 			}
 			if u.isEOF() {
-				return "C"
+				// closed by frps; <n> = pooled connections this handler consumed on the way (dead ones:
+				// skipped after a failed StartWorkConn write, or taken, "bridged" and dropped at once)
+				n := 0
+				if p1 := st.poolLen(s.runID); pool0 > 0 && p1 >= 0 && p1 < pool0 {
+					n = pool0 - p1
+				}
+				return "C:" + strconv.Itoa(n)
 			}
 			el := time.Since(u.t0)
 			if el > 50*time.Millisecond && st.poolLen(s.runID) == 0 && s.reqCount() > reqs0 {
@@ -707,6 +749,7 @@ func poolExec(tok []string) string {
 		}
 		w.localClosed = true
 		w.c.Close()
+		st.muxSync(w.mux)
 		if w.user != "" {
 			if u := st.users[w.user]; u != nil && !u.localDone {
 				if poolUntil(poolWait, u.isEOF) {
@@ -748,8 +791,13 @@ func poolExec(tok []string) string {
 
 	case "data":
 		u := st.users[tok[1]]
-		if u == nil || u.wc == nil {
+		if u == nil {
 			return "nouser"
+		}
+		// a user connection that was never bridged (closed, waiting, handed a dead pooled connection):
+		// no echo is possible; the canonical answer is `bad`, as for a bridge that has ended
+		if u.wc == nil || u.wc.localClosed || u.isEOF() {
+			return "bad"
 		}
 		if poolEcho(u, u.wc) {
 			return "ok"
@@ -762,6 +810,54 @@ func poolExec(tok []string) string {
 			return "nosess"
 		}
 		return strconv.Itoa(s.settledReqs(25 * time.Millisecond))
+
+	case "newproxy", "closeproxy":
+		// the session's proxy map over its history: p0 is the proxy the users dial, p<k> are further tcp proxies
+		s := st.sess[tok[1]]
+		if s == nil || s.ended {
+			return "nosess"
+		}
+		name := s.proxy
+		if tok[2] != "p0" {
+			name = "x" + tok[2][1:] + "-" + s.sid
+		}
+		if tok[0] == "newproxy" {
+			for len(s.resp) > 0 {
+				<-s.resp
+			}
+			if err := msg.WriteMsg(s.rw, &msg.NewProxy{ProxyName: name, ProxyType: "tcp", RemotePort: 0}); err != nil {
+				return "writeerr"
+			}
+			select {
+			case r := <-s.resp:
+				if r.Error != "" {
+					return "err:" + strconv.Itoa(s.settledReqs(15*time.Millisecond))
+				}
+				if tok[2] == "p0" {
+					_, p, _ := net.SplitHostPort(r.RemoteAddr)
+					s.port = atoi(p)
+				}
+			case <-time.After(poolWait):
+				return "noresp"
+			}
+			return "ok:" + strconv.Itoa(s.settledReqs(15*time.Millisecond))
+		}
+		// CloseProxy has no answer; the dispatcher handles messages in order, so the Pong follows the close
+		for len(s.pong) > 0 {
+			<-s.pong
+		}
+		if err := msg.WriteMsg(s.rw, &msg.CloseProxy{ProxyName: name}); err != nil {
+			return "writeerr"
+		}
+		if err := msg.WriteMsg(s.rw, &msg.Ping{}); err != nil {
+			return "writeerr"
+		}
+		select {
+		case <-s.pong:
+		case <-time.After(poolWait):
+			return "nopong"
+		}
+		return "ok:" + strconv.Itoa(s.settledReqs(15*time.Millisecond))
 
 	case "end":
 		s := st.sess[tok[1]]
@@ -1050,6 +1146,9 @@ func poolChildMain() {
 // ---------------------------------------------------------------- generator
 
 type poolGenSess struct {
+	mainOpen bool     // the proxy the users dial is registered
+	extras   []string // further proxies of the session
+	nx       int
 	sid      string
 	pc       int // effective poolCount
 	pool     []string
@@ -1069,6 +1168,10 @@ type poolGen struct {
 	expires int
 	limbos  int
 	sess    []*poolGenSess
+	nvc     int // visitor / group user connections
+	nvp     int
+	ngm     int
+	floods  int
 	dead    map[string]bool // killed work connections (half dead or dead)
 	muxOf   map[string]string
 	maxPool int
@@ -1080,7 +1183,7 @@ func (g *poolGen) uid() string { g.nu++; return "u" + strconv.Itoa(g.nu) }
 
 func (g *poolGen) login(pool int) *poolGenSess {
 	g.ns++
-	s := &poolGenSess{sid: "s" + strconv.Itoa(g.ns)}
+	s := &poolGenSess{sid: "s" + strconv.Itoa(g.ns), mainOpen: true}
 	s.pc = min(pool, g.maxPool)
 	g.op(fmt.Sprintf("login %s %d", s.sid, pool))
 	g.sess = append(g.sess, s)
@@ -1114,6 +1217,9 @@ func (g *poolGen) offer(s *poolGenSess, mux string, auth bool) {
 func (g *poolGen) user(s *poolGenSess) {
 	u := g.uid()
 	g.op(fmt.Sprintf("user %s %s", s.sid, u))
+	if !s.mainOpen {
+		return // refused
+	}
 	// what the generator expects (only to steer later ops; the model is the judge)
 	tries := s.pc + 1
 	for k := 0; k < tries; k++ {
@@ -1249,8 +1355,10 @@ func (g *poolGen) poolEpisode(n int) {
 				g.op("close " + s.bridged[i])
 				s.bridged = append(s.bridged[:i], s.bridged[i+1:]...)
 			}
-		case r < 88:
+		case r < 84:
 			g.op("reqs " + s.sid)
+		case r < 88:
+			g.churn(s)
 		case r < 91:
 			g.login(pick(rng, pools))
 		case r < 96:
@@ -1271,6 +1379,229 @@ func (g *poolGen) poolEpisode(n int) {
 			g.op("reqs " + s.sid)
 			g.op("end " + s.sid)
 		}
+	}
+}
+
+// the session's proxy map over time: register / close / register again (the proxy the users dial and
+// further ones), the map running empty and filling again, duplicates and unknown names; whatever happens
+// here the server must not ask for work connections
+func (g *poolGen) churn(s *poolGenSess) {
+	if len(s.waiting) > 0 || s.ended {
+		return
+	}
+	rng := g.rng
+	closeMain := func() {
+		g.op("closeproxy " + s.sid + " p0")
+		s.mainOpen = false
+	}
+	openMain := func() {
+		g.op("newproxy " + s.sid + " p0")
+		s.mainOpen = true
+	}
+	for j := 1 + rng.Intn(4); j > 0; j-- {
+		switch r := rng.Intn(10); {
+		case r < 3:
+			if s.mainOpen {
+				closeMain()
+				if rng.Intn(3) == 0 {
+					g.user(s)
+				}
+			} else {
+				openMain()
+			}
+		case r < 5:
+			s.nx++
+			x := "p" + strconv.Itoa(s.nx)
+			g.op("newproxy " + s.sid + " " + x)
+			s.extras = append(s.extras, x)
+		case r < 7:
+			if len(s.extras) > 0 {
+				i := rng.Intn(len(s.extras))
+				g.op("closeproxy " + s.sid + " " + s.extras[i])
+				s.extras = append(s.extras[:i], s.extras[i+1:]...)
+			} else if s.mainOpen {
+				closeMain()
+			}
+		case r < 8:
+			// a name that is already registered / one that is not
+			if rng.Intn(2) == 0 && s.mainOpen {
+				g.op("newproxy " + s.sid + " p0")
+			} else {
+				g.op("closeproxy " + s.sid + " p" + strconv.Itoa(s.nx+7))
+			}
+		default:
+			// the map runs empty, then fills again
+			for _, x := range s.extras {
+				g.op("closeproxy " + s.sid + " " + x)
+			}
+			s.extras = nil
+			if s.mainOpen {
+				closeMain()
+			}
+			if rng.Intn(2) == 0 {
+				s.nx++
+				x := "p" + strconv.Itoa(s.nx)
+				g.op("newproxy " + s.sid + " " + x)
+				s.extras = append(s.extras, x)
+			}
+			openMain()
+		}
+	}
+	if !s.mainOpen && rng.Intn(4) > 0 {
+		openMain()
+	}
+	g.op("reqs " + s.sid)
+}
+
+// the real InternalListener, one method call per op
+func (g *poolGen) vlEpisode(n int) {
+	rng := g.rng
+	g.op("vlnew")
+	nq, closed, exited := 0, false, false
+	put := func() {
+		g.nvc++
+		g.op("vlput c" + strconv.Itoa(g.nvc))
+		if !closed && nq < 128 {
+			nq++
+		}
+	}
+	accept := func() {
+		g.op("vlaccept")
+		if nq > 0 {
+			nq--
+		} else {
+			exited = true
+		}
+	}
+	for k := 0; k < 10+rng.Intn(25) && !exited && g.n < n; k++ {
+		switch r := rng.Intn(100); {
+		case r < 45:
+			put()
+		case r < 48:
+			if !closed && g.floods < 1 {
+				g.floods++
+				for j := 128 - nq + 1 + rng.Intn(3); j > 0; j-- {
+					put()
+				}
+			}
+		case r < 78:
+			if nq > 0 || closed {
+				accept()
+			}
+		default:
+			g.op("vlclose")
+			closed = true
+		}
+	}
+	if !closed {
+		g.op("vlclose")
+		closed = true
+	}
+	for !exited {
+		accept()
+	}
+}
+
+// a real stcp proxy on a real visitor manager; its accept goroutine stalled and released by the harness
+func (g *poolGen) vpEpisode(n int) {
+	rng := g.rng
+	g.op("vpreset")
+	conn := func(p string, stall bool) {
+		g.nvc++
+		auth := 1
+		if rng.Intn(12) == 0 {
+			auth = 0
+		}
+		st := 0
+		if stall {
+			st = 1
+		}
+		g.op(fmt.Sprintf("vpconn %s c%d %d %d", p, g.nvc, st, auth))
+	}
+	for i := 1 + rng.Intn(2); i > 0 && g.n < n; i-- {
+		g.nvp++
+		p := "p" + strconv.Itoa(g.nvp)
+		g.op(fmt.Sprintf("vpnew %s %d", p, rng.Intn(2)))
+		stalled := false
+		for k := 0; k < 5+rng.Intn(10); k++ {
+			switch r := rng.Intn(100); {
+			case r < 45:
+				st := !stalled && rng.Intn(3) == 0
+				conn(p, st)
+				stalled = stalled || st
+			case r < 60:
+				if stalled {
+					g.op("vprelease " + p)
+					stalled = false
+				}
+			case r < 80:
+				if !stalled {
+					conn(p, true)
+					stalled = true
+				}
+				for j := 1 + rng.Intn(5); j > 0; j-- {
+					conn(p, false)
+				}
+			default:
+				if rng.Intn(3) == 0 {
+					g.op("vpnew " + p + " 0") // the name is taken
+				}
+			}
+		}
+		g.op("vpclose " + p)
+		for j := rng.Intn(3); j > 0; j-- {
+			conn(p, false)
+		}
+	}
+}
+
+// a real load-balancing group; the members' accept loops are the harness
+func (g *poolGen) gpEpisode(n int) {
+	rng := g.rng
+	g.op("gpreset")
+	var members []string
+	pending := 0
+	for k := 0; k < 8+rng.Intn(14) && g.n < n; k++ {
+		r := rng.Intn(100)
+		if k == 0 {
+			r = 0
+		}
+		switch {
+		case r < 20:
+			g.ngm++
+			m := "m" + strconv.Itoa(g.ngm)
+			g.op("gplisten " + m)
+			members = append(members, m)
+		case r < 24:
+			if len(members) > 0 {
+				g.op("gplisten " + pick(rng, members)) // already a member
+			}
+		case r < 62:
+			if len(members) > 0 || rng.Intn(4) == 0 {
+				g.nvc++
+				g.op("gpconn c" + strconv.Itoa(g.nvc))
+				if len(members) > 0 {
+					pending++
+				}
+			}
+		case r < 82:
+			if len(members) > 0 && pending > 0 {
+				g.op("gpaccept " + pick(rng, members))
+				pending--
+			}
+		default:
+			if len(members) > 0 {
+				i := rng.Intn(len(members))
+				g.op("gpclose " + members[i])
+				members = append(members[:i], members[i+1:]...)
+				if len(members) == 0 {
+					pending = 0
+				}
+			}
+		}
+	}
+	for _, m := range members {
+		g.op("gpclose " + m)
 	}
 }
 
@@ -1407,11 +1738,14 @@ func poolGenRun(rng *rand.Rand, n int, emit func(string)) {
 	g.op("child reset,5;login,s1,-1;user,s1,u1")
 	g.op("child reset,5;login,s1,-11")
 	g.op("child reset,5;login,s1,-10;offer,s1,w1,m0,1")
+	// cycles: one pool episode, then the small accept-path episodes (each in about every second cycle,
+	// so that a quick run of ~1100 ops holds several of every kind)
 	for g.n < n {
-		if rng.Intn(3) == 0 {
-			g.mxEpisode(n)
-		} else {
-			g.poolEpisode(n)
+		g.poolEpisode(n)
+		for _, ep := range []func(int){g.mxEpisode, g.vlEpisode, g.vpEpisode, g.gpEpisode} {
+			if g.n < n && rng.Intn(2) == 0 {
+				ep(n)
+			}
 		}
 	}
 }
